@@ -61,11 +61,14 @@ def instances(tier, seed):
     for sk in SKELETONS:
         for ld in LEAF_DIMS:
             for stt in STRUCTS:
-                for p in ([], ["a"]):
+                for p in [[], ["a"]] + ([["*#v"], ["*v"]] if "v" in ld else []):
                     trees.append(dict(kind="pytree", skel=sk, leaf=ld, struct=stt, prior=p,
                                       maxrank=2))
     rng.shuffle(trees)
-    ncore = 140 if tier == "quick" else len(trees)
+    # a structure-less PyTree whose leaf type contains a *named* PyTree: a later leaf fails
+    for variant in range(4):
+        out.append(("core", dict(kind="nestedstruct", variant=variant, prior=[], maxrank=1)))
+    ncore = 170 if tier == "quick" else len(trees)
     for i, t in enumerate(trees):
         out.append(("core" if i < ncore else "ext", t))
     out.sort(key=lambda x: x[0] != "core")
@@ -212,6 +215,16 @@ def scenario(inst, V):
             post = base.bindings()
             n = judge(V, pre, got, post, lambda: observe(lambda: isinstance(arr, ann)), tag="union-")
             obs.update(verdict=n, single=post["single"], variadic=post["variadic"])
+        elif kind == "nestedstruct":
+            v = inst["variant"]
+            leafT = tuple[jt.PyTree[int, "T"], str]
+            good, bad = ((1, 2), "a"), ((3, 4), 5)
+            tree = [[good, bad], [good, ((3, 4, 5), "b")], [bad], [good, good]][v]
+            pre = base.bindings()
+            got = observe(lambda: isinstance(tree, jt.PyTree[leafT]))
+            post = base.bindings()
+            n = judge(V, pre, got, post, lambda: observe(lambda: isinstance(tree, jt.PyTree[leafT])), tag="pytree-")
+            obs.update(verdict=n, pytree=sorted(post["pytree"]))
         elif kind == "pytree":
             nl = n_leaves(inst["skel"])
             leaves = []
